@@ -32,6 +32,7 @@ func init() {
 		{Tier: "built1", Bound: 0},
 		{Tier: "subconv", Bound: 0},
 		{Tier: "multiout", Bound: 0},
+		{Tier: "subchains", Bound: 0},
 	}
 	callThorough := []Step{
 		{Tier: "direct", Bound: 1, Bound2: true},
@@ -49,6 +50,7 @@ func init() {
 		{Tier: "built1", Bound: 1},
 		{Tier: "subconv", Bound: 1},
 		{Tier: "multiout", Bound: 1},
+		{Tier: "subchains", Bound: 1},
 	}
 	for _, p := range []string{"C01", "C02", "C05", "C13"} {
 		Plans[p] = map[string][]Step{"quick": callQuick, "thorough": callThorough}
@@ -72,8 +74,8 @@ func init() {
 		"thorough": {{Tier: "exact", Size: 1, Bound: 1}, {Tier: "exact", Size: 2, Bound: 0}},
 	}
 	Plans["C04"] = map[string][]Step{
-		"quick":    {{Tier: "fails3x2", Bound: 1}, {Tier: "failsM3x2", Bound: 0}, {Tier: "failsnil3x2", Bound: 0}, {Tier: "failsunsat3x2", Size: 7, Bound: 0}},
-		"thorough": {{Tier: "fails3x2", Bound: 1}, {Tier: "fails3x3", Bound: 1}, {Tier: "failsM3x2", Bound: 1}, {Tier: "failsnil3x2", Bound: 1}, {Tier: "failsunsat3x2", Size: 7, Bound: 1}},
+		"quick":    {{Tier: "fails3x2", Bound: 1}, {Tier: "failsM3x2", Bound: 0}, {Tier: "failsnil3x2", Bound: 0}, {Tier: "failsunsat3x2", Size: 7, Bound: 0}, {Tier: "failsMunsat3x2", Size: 9, Bound: 0}, {Tier: "failsforms", Bound: 1}},
+		"thorough": {{Tier: "fails3x2", Bound: 1}, {Tier: "fails3x3", Bound: 1}, {Tier: "failsM3x2", Bound: 1}, {Tier: "failsnil3x2", Bound: 1}, {Tier: "failsunsat3x2", Size: 7, Bound: 1}, {Tier: "failsMunsat3x2", Size: 9, Bound: 1}, {Tier: "failsMunsat3x2", Size: 7, Bound: 0}, {Tier: "failsforms", Bound: 1, Bound2: true}},
 	}
 }
 
